@@ -335,16 +335,22 @@ func (s *State) lockCheck(instr ssa.Instruction, a *Addr) {
 func (s *State) heldTerm() string { return s.held }
 
 func (s *State) libIndex(x *ssa.Index) Val {
-	s.unsupported("Index on array/string value")
+	if m := s.valOf(x.X); kindOf(m.T) == kStr {
+		return s.libIndexStr(x, m, s.valOf(x.Index))
+	}
+	s.unsupported("Index on array value")
 	return s.freshVal(x.Type(), "idx")
 }
 
-func (s *State) libIndexStr(x *ssa.Lookup, m, k Val) Val {
+func (s *State) libIndexStr(x ssa.Instruction, m, k Val) Val {
+	s.strBasics(m.S)
 	goal := and(app("<=", "0", k.S), app("<", k.S, app("blen", m.S)))
 	s.oblige("bounds", x, s.c.ordinal(x, "bounds"), goal, "string index out of range", false)
 	s.assume(goal)
-	r := s.freshVal(x.Type(), "byte")
+	r := s.freshVal(types.Typ[types.Uint8], "byte")
 	s.assume(and(app("<=", "0", r.S), app("<=", r.S, "255")))
+	s.c.declare("byteAt", "(declare-fun byteAt (Str Int) Int)")
+	s.assume(eq(r.S, app("byteAt", m.S, k.S)))
 	return r
 }
 
